@@ -45,6 +45,8 @@ def make_core(phy="sdr_1_1", bankbits=1, rowbits=11, colbits=4, nports=2, timing
     else:
         kw = dict(PHY_PRESETS[phy]) if isinstance(phy, str) else dict(phy)
         kw.update(dfi_databits=dfi_databits, nranks=nranks)
+        if kw.get("memtype", "SDR") != "SDR" and "databits" not in kw:
+            kw["databits"] = dfi_databits // 2      # DDR-type PHYs: two beats of `databits` per DFI phase
         ps = phy_settings(**kw)
     gs = GeomSettings(bankbits=bankbits, rowbits=rowbits, colbits=colbits)
     ts = timing if isinstance(timing, TimingSettings) else timing_settings(**(timing or {}))
